@@ -1,7 +1,7 @@
-(* C07 property theorems (statements; proofs are in Proofs.v) about the REPAIRED code (fixes F04 F05 F27).
+(* C07 property theorems (statements; proofs are in Proofs.v) about the REPAIRED code (fixes F04 F05 F27 F29).
    Model: C07/Model.v (hand-written, tied to the source by the correspondence check of checks/c07.py);
    character classes: SlskGen.CharTable, regenerated from the running interpreter on every run.
-   [ops_ok]: every LoadSettings operation lists each directory path once. *)
+   Phase 5: fix F29 adopted, the theorems no longer need a premise on the LoadSettings operations. *)
 From Slsk Require Import Base.Tac.
 From SlskGen Require Import CharTable SharesGen.
 From Slsk Require Import C07.Model C07.Proofs.
@@ -75,14 +75,14 @@ Theorem C07_query_only_listed : forall ops q ph n x,
 Proof. intros ops q ph n x H. apply indexed_listed. apply (query_sound _ _ _ _ _ H). Qed.
 
 (* every held item points at the directory object that holds it (and is named relative to it) *)
-Theorem C07_owner_pointer : forall ops d x, ops_ok ops -> In d (listed (run ops)) -> In x (ditems d) ->
+Theorem C07_owner_pointer : forall ops d x, In d (listed (run ops)) -> In x (ditems d) ->
   oid x = did d /\ opath x = dpath d /\ find_obj (run ops) (oid x) = Some d.
 Proof. exact owner_pointer. Qed.
 
 (* INDEX PARTITION, all operation sequences: every held file lies below the directory that holds it, that directory is
    the innermost listed one containing the file, no file is held by two directories, and no directory holds a file twice:
    each file is indexed at most once, under the innermost shared directory containing it *)
-Theorem C07_index_partition : forall ops, ops_ok ops ->
+Theorem C07_index_partition : forall ops,
   let s := run ops in
   (forall d x, In d (listed s) -> In x (ditems d) ->
      path_prefix (dpath d) (dir_of x) = true /\
@@ -111,21 +111,15 @@ Theorem C07_stats : forall s, snd (get_stats s) = length (listed_items s).
 Proof. exact stats_files. Qed.
 
 (* the reported folder count is the number of distinct directories (absolute paths) containing a held file *)
-Theorem C07_stats_folders : forall ops, ops_ok ops ->
+Theorem C07_stats_folders : forall ops,
   fst (get_stats (run ops)) = length (dedup (map dir_of (listed_items (run ops)))).
 Proof. exact stats_folders. Qed.
-
-(* without the premise ops_ok the counts are wrong (finding F29): a settings list naming a path twice lists the directory
-   twice and get_stats reports 2 files for 1 *)
-Theorem C07_load_duplicates_refuted : exists ops,
-  ~ NoDup (map dpath (listed (run ops))) /\ snd (get_stats (run ops)) = 2 /\ length (dedup (map abs_path (listed_items (run ops)))) = 1.
-Proof. exact load_duplicates_refuted. Qed.
 
 (* non-vacuity: a reachable state; the wildcard query that used to return nothing (F04) returns both files; after the
    history that used to leave stale pointers (F05) the moved item points at its new directory and is named relative to it *)
 Example C07_nonvacuous :
   let s := run ops_f04 in let q := parse (c [42;105;110;103]) in
-  ops_ok ops_f04 /\ ops_ok ops_zombie /\
+  listed_items (run ops_dup) = [mkItem 0 [w_d] [] w_sing 5%N] /\ get_stats (run ops_dup) = (1, 1) /\
   has_inclusion q = true /\ length (query_all s q []) = 2 /\ keys s <> [] /\
   listed_items (run ops_zombie) = [mkItem 1 [w_P; w_C] [] w_deep 6%N] /\
   query_items (run ops_zombie) (mkQuery [w_top] [] []) [] 100 = [].
